@@ -754,11 +754,10 @@ def merge_fstr(t):
 def expand_const_comp(t):
     """[f(k) for k in ("a", "b")]  ->  [f("a"), f("b")]"""
     def f(x):
-        if x[0] == "comp" and x[1] in ("list", "tuple") and \
+        if x[0] == "comp" and x[1] in ("list", "tuple", "gen") and \
                 len(x[3]) == 1 and not x[3][0][2]:
             it = x[3][0][1]
-            if it[0] in ("tuple", "list") and it[1] and all(
-                    y[0] == "const" for y in it[1]):
+            if it[0] in ("tuple", "list") and it[1]:
                 el = ("elem", it)
                 return ("list", tuple(
                     map_term(x[2], lambda z, c=c: c if z == el else z)
